@@ -623,10 +623,10 @@ def obligations(tier):
     obls = []
     if tier == "quick":
         pats = [(1, 2, 3), (2, 2, 2)]
-        wall = 170
+        wall = 600
     else:
         pats = [(1, 3, 4), (2, 2, 3), (2, 3, 3), (3, 2, 3)]
-        wall = 1500
+        wall = 3000
     for A, MAXD, S in pats:
         # split by the first argument's rank (and out rank) so that slices run in parallel; each slice is decided by z3
         for nd0 in range(MAXD + 1):
